@@ -55,6 +55,9 @@ def flag_atoms(f):
 
 
 def run_cfg(ctx, p, cfg):
+    from rules import accessors
+    accessors.rule_fidelity(ctx, p, cfg, "X9", prefix="encode::", floor=3, with_build=False)           # "exactly the requested attributes": Style keeps the colour / intensity it is given, Some(value) for every value
+    accessors.rule_fidelity(ctx, p, cfg, "X10", prefix="append::console::", floor=3, with_build=False)  # the builder keeps target, tty_only and encoder
     rule_style_forwarding(ctx, p, cfg, "X8")
     with ctx.rule("X1", "colour decision", cfg) as r:
         # the initialiser of COLOR_MODE is followed once per state of the three variables (unset / "0" / anything else):
